@@ -33,7 +33,7 @@ REQUIRED = (['op:' + o for o in HOPS] + ['op:' + o for o in LOOKUPS] +
             ['build-side-duplicates', 'build-side-empty', 'none-key-both-sides', 'pass2-served-from-cached-lookup',
              'pass2-cache-off-reflects-edit', 'strict-raised', 'strict-not-raised', 'prefilled-dictionary', 'copying-dictionary', 'lookup-value-by-index-0'])
 
-KPOOL = [None, 1, 1.0, True, 2, 'a', b'a', 'b', (1, 2), gen.D(2020, 1, 1)]
+KPOOL = [None, 1, 1.0, True, 2, 'a', b'a', 'b', (1, 2), gen.D(2020, 1, 1), 0, False, '', ()]
 
 
 def _mk(op, left, right, **kw):
